@@ -36,16 +36,20 @@ def run(res, b, tier, seed):
     # the conclusion of the parser theorem (accepted programs satisfy PT.program), evaluated on the ASTs of the REAL parser
     with_ast = [c for c in cases if c.out.get("AST", ("", ""))[0] == "OK"]
     pt_answers = pipeline.model_lines(b, ["PTCHECK " + c.out["AST"][1] for c in with_ast])
-    pt_stats = dict(asts=len(with_ast), parser_typed=0, strict=0, emitter_typed=0)
+    pt_stats = dict(asts=len(with_ast), parser_typed=0, strict=0, emitter_typed=0, calls_agree_with_signatures=0)
     dis, fails = [], []
     for c, a in zip(with_ast, pt_answers):
         f = a.split(" ")
-        if len(f) != 4 or f[0] != "PT":
+        if len(f) != 5 or f[0] != "PT":
             fails.append((c, "ptcheck-failed", a[:200]))
             continue
         pt_stats["parser_typed"] += f[1] == "1"
         pt_stats["strict"] += f[2] == "1"
         pt_stats["emitter_typed"] += f[3] == "1"
+        pt_stats["calls_agree_with_signatures"] += f[4] == "1"
+        if f[4] != "1" and len(c.files) == 1:
+            fails.append((c, "call-disagrees-with-signature", "a call in the accepted AST names no function defined before it with these parameter and return types "
+                                                              "(PT.sigSs, conclusion of C06.calls_agree_with_signatures; single-file program)"))
         if f[1] != "1":
             fails.append((c, "accepted-ast-not-parser-typed", "the AST the parser returned violates PT.program (conclusion of C06.accepted_programs_are_typed)"))
         elif f[2] == "1" and f[3] != "1":
